@@ -134,6 +134,36 @@ func (t *tracer) origins(v ssa.Value) []Origin {
 		case *ssa.UnOp:
 			if x.Op == token.MUL {
 				if f, base := fieldOf(x.X); f != nil {
+					// a value carried in a field of an object that is built and filled inside the scope
+					// (a per-row `candidate{…, pg}`): what was stored there.  A field written anywhere
+					// outside the scope (Task.pgp, set at construction) stays an origin of its own.
+					t.res.build()
+					stores := t.res.fieldStore[f]
+					inScope := len(stores) > 0
+					for _, sv := range stores {
+						var pf *ssa.Function
+						switch y := sv.(type) {
+						case ssa.Instruction:
+							pf = y.Parent()
+						case *ssa.Parameter:
+							pf = y.Parent()
+						case *ssa.FreeVar:
+							pf = y.Parent()
+						case *ssa.Const:
+							continue
+						default:
+							inScope = false
+						}
+						if pf == nil || (t.scope != nil && !t.scope[pf]) {
+							inScope = false
+						}
+					}
+					if inScope && t.scope != nil {
+						for _, sv := range stores {
+							walk(sv)
+						}
+						return
+					}
 					out = append(out, Origin{"field", x, "field " + fieldString(f, base)})
 					return
 				}
